@@ -288,24 +288,89 @@ example : apLoad [.dict [1], .dict [2], .dict [3], .stream] 2 0 = .err := by dec
 -- ===================================================================================================
 -- 6. the /Prev loop
 
-/-- **The /Prev walk terminates**: for every table of sections (indexed by file position: unreadable, or
-    readable with any /Prev — itself, an earlier or later section, a position outside the file), reading
-    from any start returns within `len + 1` iterations: the `seen` list never holds a position twice. -/
-theorem prev_loop_terminates (secs : Sections) (start : Nat) :
-    readChain secs (secs.length + 1) start ≠ .oof ∧ readChain secs (secs.length + 1) start ≠ .panic := by
+/-- **The /Prev walk terminates, for every start offset**: for every buffer (a table indexed by absolute
+    position: unreadable, or a section with any /Prev — itself, an earlier or later section, a number
+    that leaves the buffer or overflows when the start offset is added), every position `start` of the
+    `%PDF-` header (junk before it) and every `startxref` value, reading returns within `len + 1`
+    iterations. The guard records and compares numbers of the *same* coordinate system (header-relative);
+    each recorded number `p` had `start + p` inside the buffer, so there are at most `len` of them. -/
+theorem prev_loop_terminates (secs : Sections) (start xrefOffset : Nat) :
+    readChain secs start (secs.length + 1) xrefOffset ≠ .oof ∧ readChain secs start (secs.length + 1) xrefOffset ≠ .panic := by
   unfold readChain
   split
   · simp
+  split
   · simp
-  · exact ⟨prevLoop_ne_oof_aux secs _ _ [] 1 List.nodup_nil (by simp) (by simp), prevLoop_ne_panic secs _ _ _ _⟩
+  split
+  · simp
+  · simp
+  · exact ⟨prevLoop_ne_oof_aux secs start _ _ [] 1 List.nodup_nil (by simp) (by simp), prevLoop_ne_panic secs start _ _ _ _⟩
 
-/-- a section whose /Prev is itself is read twice, then the loop is detected; a ring of three likewise;
-    a /Prev that points at
-    something unreadable is an error; a proper chain of three sections is merged -/
-example : readChain [some (some 0)] 2 0 = .err := by decide
-example : readChain [some (some 1), some (some 2), some (some 0)] 4 0 = .err := by decide
-example : readChain [some (some 1), none] 3 0 = .err := by decide
-example : readChain [some (some 1), some (some 2), some none] 4 0 = .ok 3 := by decide
+/-- one byte of junk, then a section whose /Prev is its own (header-relative) offset 0 -/
+def selfPrevBehindJunk : Sections := [none, some (some 0)]
+
+/-- **Why the start offset is explicit.** A guard that records the buffer position but compares the number
+    from the file never sees the loop once the header is not at byte 0: the walk does not return. (With
+    `start = 0` the two guards are the same function, which is why documents without a prefix cannot tell
+    them apart.) -/
+theorem prevLoopMixed_diverges : ∀ (fuel : Nat) (seen : List Nat) (n : Nat), 0 ∉ seen →
+    prevLoopMixed selfPrevBehindJunk 1 fuel (some 0) seen n = .oof := by
+  intro fuel
+  induction fuel with
+  | zero => intro seen n _; rfl
+  | succ fuel ih =>
+    intro seen n h0
+    unfold prevLoopMixed
+    simp only [h0, if_false]
+    have : selfPrevBehindJunk[1 + 0]? = some (some (some 0)) := by decide
+    rw [this]
+    apply ih
+    intro hm
+    rcases List.mem_cons.1 hm with h | h
+    · omega
+    · exact h0 h
+
+theorem prevLoopMixed_same_without_prefix (secs : Sections) :
+    ∀ (fuel : Nat) (p : Option Nat) (seen : List Nat) (n : Nat), (∀ c ∈ seen, c ≤ usizeMax) → (secs.length ≤ usizeMax) →
+      prevLoopMixed secs 0 fuel p seen n = prevLoop secs 0 fuel p seen n := by
+  intro fuel
+  induction fuel with
+  | zero => intro p seen n _ _; rfl
+  | succ fuel ih =>
+    intro p seen n hs hl
+    cases p with
+    | none => rfl
+    | some p =>
+      unfold prevLoopMixed prevLoop
+      split
+      · rfl
+      · simp only [Nat.zero_add]
+        by_cases hp : p > usizeMax
+        · have : secs[p]? = none := List.getElem?_eq_none_iff.2 (by omega)
+          simp [hp, this]
+        · simp only [hp, if_false]
+          split
+          · rfl
+          · rfl
+          · apply ih
+            · intro c hc
+              rcases List.mem_cons.1 hc with rfl | hc
+              · omega
+              · exact hs c hc
+            · exact hl
+
+/-- the real guard on the same buffer: the section is read twice, then the loop is detected -/
+example : readChain selfPrevBehindJunk 1 3 0 = .err := by decide
+/-- header at byte 0: self loop, ring of three, unreadable target, proper chain of three -/
+example : readChain [some (some 0)] 0 2 0 = .err := by decide
+example : readChain [some (some 1), some (some 2), some (some 0)] 0 4 0 = .err := by decide
+example : readChain [some (some 1), none] 0 3 0 = .err := by decide
+example : readChain [some (some 1), some (some 2), some none] 0 4 0 = .ok 3 := by decide
+/-- two bytes of junk: the chain 0 → 1 → 2 (header-relative) lives at positions 2, 3, 4; a ring behind junk is
+    detected; a /Prev that is an *absolute* position leaves the chain -/
+example : readChain [none, none, some (some 1), some (some 2), some none] 2 6 0 = .ok 3 := by decide
+example : readChain [none, none, some (some 1), some (some 2), some (some 0)] 2 6 0 = .err := by decide
+example : readChain [none, none, some (some 3), some none, some none] 2 6 0 = .err := by decide
 
 -- ===================================================================================================
 -- 7. numeric parameters with arbitrary values
@@ -497,7 +562,7 @@ def C14_model_full : Prop :=
   (∀ (g : List PNode) (kids : List Nat) (n : Nat), Out.Returns (page g true kids n).out) ∧
   (∀ (g : List CObj) (k : Nat), Out.Returns (csLoad g 5 k)) ∧
   (∀ (g : List AObj) (k : Nat), Out.Returns (apLoad g 2 k)) ∧
-  (∀ (secs : Sections) (start : Nat), Out.Returns (readChain secs (secs.length + 1) start)) ∧
+  (∀ (secs : Sections) (start xrefOffset : Nat), Out.Returns (readChain secs start (secs.length + 1) xrefOffset)) ∧
   (∀ bits tol num width data, Out.Returns (xrefSection bits true tol num width data)) ∧
   (∀ bits first offsets index len, Out.Returns (objSlice bits true first offsets index len)) ∧
   (∀ parts, Out.Returns (differences true parts 0 [])) ∧
@@ -513,7 +578,7 @@ theorem C14_model_total : C14_model_full := by
   · intro g kids n; exact page_total g kids n
   · intro g k; exact colorspace_total g k
   · intro g k; exact appearance_total g k
-  · intro secs start; exact ⟨(prev_loop_terminates secs start).2, (prev_loop_terminates secs start).1⟩
+  · intro secs start x; exact ⟨(prev_loop_terminates secs start x).2, (prev_loop_terminates secs start x).1⟩
   · intro bits tol num width data
     exact ⟨(xref_section_total bits tol num width data).1, (xref_section_total bits tol num width data).2.1⟩
   · intro bits first offsets index len
